@@ -80,7 +80,7 @@ def cif_roles(tree):
         elif "find" in attrcalls:
             put("_parse_category_name", fn)
         elif "startswith" in attrcalls and not any(isinstance(x, ast.Call) and isinstance(x.func, ast.Name) and x.func.id in {f.name for f in fns} for x in nodes):
-            sliced = any(isinstance(x, ast.Return) and isinstance(x.value, ast.Subscript) and isinstance(x.value.slice, ast.Slice) for x in nodes)
+            sliced = any(isinstance(x, ast.Slice) for x in nodes)
             put("_parse_data_block_name" if sliced else "_is_loop_start", fn)
         elif "join" in attrcalls and any(isinstance(x, ast.For) for x in nodes):
             put("_to_single", fn)
@@ -247,11 +247,29 @@ def named_constants(src, fps):
     if len(f["strs"]) != 2 or f["ints"] != [0] or f["cmps"] != ["Eq"]:
         raise ValueError(f"_to_single has another shape: {f}")
     c["semiChar"], c["joinSep"] = f["strs"]
-    f = fps["cif._split_one_line"]
-    if len(f["strs"]) != 6 or f["ints"] != [0, 1, 0, 1, 1, 1, 1] or f["cmps"] != ["Eq", "In", "In", "Gt"]:
-        raise ValueError(f"_split_one_line has another shape: {f}")
-    c["splitSemi"], c["splitQ1a"], c["splitQ2a"], c["partitionSep"], c["splitQ1"], c["splitQ2"] = f["strs"]
-    c["quotedMinLen"] = f["ints"][4]
+    # the tokeniser: located by what the statements contain, not by the position of a literal
+    tree0 = ast.parse(open(os.path.join(src, FILES["cif"])).read())
+    sp = cif_roles(tree0)["_split_one_line"]
+    nodes = list(ast.walk(sp))
+    firsts = [x.comparators[0].value for x in nodes if isinstance(x, ast.Compare) and isinstance(x.left, ast.Subscript)
+              and isinstance(x.left.slice, ast.Constant) and x.left.slice.value == 0 and isinstance(x.ops[0], ast.Eq)
+              and isinstance(x.comparators[0], ast.Constant) and isinstance(x.comparators[0].value, str)]
+    tuples = [[e.value for e in x.elts] for x in nodes if isinstance(x, ast.Tuple) and len(x.elts) == 2
+              and all(isinstance(e, ast.Constant) and isinstance(e.value, str) and len(e.value) == 1 for e in x.elts)]
+    ins = [x.left.value for x in nodes if isinstance(x, ast.Compare) and isinstance(x.ops[0], ast.In) and isinstance(x.left, ast.Constant)
+           and isinstance(x.left.value, str) and len(x.left.value) == 1]
+    parts = [x.args[0].value for x in nodes if isinstance(x, ast.Call) and isinstance(x.func, ast.Attribute) and x.func.attr == "partition"
+             and len(x.args) == 1 and isinstance(x.args[0], ast.Constant)]
+    mins = [x.comparators[0].value for x in nodes if isinstance(x, ast.Compare) and isinstance(x.ops[0], ast.Gt) and isinstance(x.left, ast.Call)
+            and isinstance(x.left.func, ast.Name) and x.left.func.id == "len" and isinstance(x.comparators[0], ast.Constant)]
+    if len(firsts) != 1 or len(tuples) != 1 or len(ins) != 2 or len(parts) != 1 or len(mins) != 1:
+        raise ValueError(f"the tokeniser has another shape: first-char tests {firsts}, quote tuples {tuples}, 'q in line' tests {ins}, "
+                         f"partition separators {parts}, minimal lengths {mins}")
+    c["splitSemi"] = firsts[0]
+    c["splitQ1a"], c["splitQ2a"] = ins
+    c["splitQ1"], c["splitQ2"] = tuples[0]
+    c["partitionSep"] = parts[0]
+    c["quotedMinLen"] = mins[0]
     f = fps["cif.CIFCategory._serialize_single"]
     if f["strs"] != ["_", "."] and len(f["strs"]) != 2:
         raise ValueError(f"_serialize_single has another shape: {f}")
@@ -312,14 +330,21 @@ def named_constants(src, fps):
         f = fps["bcif.BinaryCIFBlock." + m]
         strip.append([x for x in f["calls"] if x in ("removeprefix", "lstrip", "strip", "rstrip", "replace")] + [s for s in f["strs"] if s == "_" or "_" in s and len(s) <= 2])
     c["binaryStrip"] = strip
-    # where the cached row count is forgotten
+    # where the cached row count is forgotten: the attribute is the one the public `row_count` property returns
     resets = []
     for mod, rel in FILES.items():
         tree = ast.parse(open(os.path.join(src, rel)).read())
         for cls in [n for n in tree.body if isinstance(n, ast.ClassDef)]:
+            props = [n for n in cls.body if isinstance(n, ast.FunctionDef) and n.name == "row_count"]
+            if not props:
+                continue
+            rets = [st.value.attr for st in ast.walk(props[0]) if isinstance(st, ast.Return) and isinstance(st.value, ast.Attribute)]
+            if len(set(rets)) != 1:
+                raise ValueError(f"{cls.name}.row_count does not return one attribute: {rets}")
+            attr = rets[0]
             for fn in [n for n in cls.body if isinstance(n, ast.FunctionDef)]:
                 for st in ast.walk(fn):
-                    if (isinstance(st, ast.Assign) and isinstance(st.targets[0], ast.Attribute) and st.targets[0].attr == "_row_count"
+                    if (isinstance(st, ast.Assign) and isinstance(st.targets[0], ast.Attribute) and st.targets[0].attr == attr
                             and isinstance(st.value, ast.Constant) and st.value.value is None):
                         resets.append(cls.name + "." + fn.name)
     c["rowCountResets"] = resets
